@@ -26,6 +26,18 @@ CHECKS = {
          "6-C19", "Every line (stand-alone and connected, incl. merged header) is cloned; the clone must be detached, equal and textually identical; no mutable object may be reachable from both; after editing every mutable value of one side the other side (line, Gfa, referenced lines) must be unchanged."),
  "C20": ("typed value generation on and around every datatype boundary; set -> write -> independent grammar check -> re-parse round trip; invalid classes must be reported by validation",
          "6-C20", "Python values in and just outside each tag datatype's range are assigned (set/attribute, declared or default datatype, vlevel 0-3); valid ones must be written in valid syntax and read back equal with the same datatype (B with the smallest subtype), invalid ones must be reported by validate_field/validate and at write time for vlevel >= 2."),
+ "C06": ("generated GFA1 graphs and model-derived GFA2 graphs converted both ways; oracle = independent interval/alignment arithmetic, vlevel-3 re-parse of the output, round trip",
+         "6-C06", "Conversions of generated graphs (asymmetric CIGARs, all orientations, containments at every offset, linear/circular/one-segment paths, both E role arrangements, records without counterpart) are compared record by record with a model of the coordinate arithmetic; outputs must parse at vlevel 3; there-and-back must be equivalent."),
+ "C08": ("model-based histories with injected calls built to fail; observation before vs after each refused call (differential on the same object)",
+         "6-C08", "About half of the steps of generated histories are calls constructed to be refused (collisions, version conflicts, malformed fields, header conflicts, contradictory group tags, read-only fields, unsupported VN on a Gfa of unknown version); whenever a call raises, the complete observation of the Gfa must equal the one taken before."),
+ "C09": ("model-based histories of adds/renames/removals with collision attempts; namespace and lookup invariants after every step",
+         "6-C09", "Histories over every identified record type with same-type and cross-type collisions (add and rename), integer-looking names and unused_name(); after each step the namespace, per-kind name lists, line()/segment() lookups and the written document are compared with the text model; collisions must raise NotUniqueError and leave the state unchanged (documented merges excepted)."),
+ "C10": ("random sequences of calls from an explicit catalogue of 70 read-only operations on generated Gfa states; deep fingerprint before/after each call and repeatability of results",
+         "6-C10", "After every call of a random sequence of read-only operations a deep fingerprint of the Gfa (texts, field values, ordered back-reference lists, name lists) must be unchanged and the repeated call must return an equal result."),
+ "C13": ("exhaustive enumeration of short sequences of line kinds x version parameter x vlevel against a version-inference table + generated mixed documents in random orders",
+         "6-C13", "All sequences of up to 3 (quick) / 4 (thorough) lines over 15 line kinds x version parameter x vlevel are enumerated (exhaustive: true for that part), incrementally and through Gfa(list); the inferred version / VersionError verdict must match the model table for every order and every queued line must appear exactly once."),
+ "C18": ("differential across validation levels on generated valid and mutated documents; assignment programs with grammar-judged values checked for when the error surfaces",
+         "6-C18", "The same document is loaded at vlevel 0-3 (same graph, same text, monotone acceptance); assignment programs with values the independent grammar accepts or rejects check that an invalid value raises at the assignment at level 3, at write time at level >= 2 and in validate_field at every level, and that valid values are never rejected."),
 }
 NOT_APPLICABLE = {
 }
